@@ -271,6 +271,12 @@ class Server(Acceptor):
         self.serviceAccepts()  # populate .axes
         while self.axes:
             cs, ca = self.axes.popleft()
+            try:
+                cs.getpeername()
+            except OSError as ex:  # already reset by peer so not connected any more
+                logger.error("Accepted connection from %s already gone.\n%s\n", ca, ex)
+                cs.close()  # not kept so close it
+                continue
             if ca != cs.getpeername() or self.eha[1] != cs.getsockname()[1]: # only port on eha
                 emsg = ("Accepted socket host addresses malformed for "
                         "peer. ca {0} != {1} or ha port {2} != {3}\n"
@@ -551,6 +557,12 @@ class ServerTls(Server):
         self.serviceAccepts()  # populate .axes
         while self.axes:
             cs, ca = self.axes.popleft()
+            try:
+                cs.getpeername()
+            except OSError as ex:  # already reset by peer so not connected any more
+                logger.error("Accepted connection from %s already gone.\n%s\n", ca, ex)
+                cs.close()  # not kept so close it
+                continue
             if ca != cs.getpeername() or self.eha[1] != cs.getsockname()[1]: # only port on eha
                 emsg = ("Accepted socket host addresses malformed for "
                         "peer. ca {0} != {1} or ha port {2} != {3}\n"
